@@ -60,6 +60,23 @@ THEOREMS = [
     "Typedpy.C18.derived_name_identOk",
     "Typedpy.C18.derived_class_statement",
     "Typedpy.C18.bracket_class_name_loses_field",
+    "Typedpy.C18.splitLast_none_of_noOcc",
+    "Typedpy.C18.splitLast_prepend",
+    "Typedpy.C18.splitLast_cons_none",
+    "Typedpy.C18.splitLast_semiGot_base",
+    "Typedpy.C18.m23tail_gotLast_exact",
+    "Typedpy.C18.render_parse_gotLast",
+    "Typedpy.C18.render_parse_plain",
+    "Typedpy.C18.render_parse_inverts",
+    "Typedpy.C18.unclean_texts_examples",
+    "Typedpy.C18.noSemi_quoteStr",
+    "Typedpy.C18.dropPre_none_snoc",
+    "Typedpy.C18.noOcc_snoc",
+    "Typedpy.C18.noOcc_quoteStr",
+    "Typedpy.C18.str_value_roundtrip",
+    "Typedpy.C18.typedpy_problem_good",
+    "Typedpy.C18.templates_wellFormed",
+    "Typedpy.C18.fixed_templates_examples",
 ]
 RULE = ("flat classes (1..5 fields: Integer/Number/Float incl. sign variants, String, Boolean, Enum, and Array/Deque/"
         "Set/Tuple/Map over them) from the type-directed declaration generator; per class a valid argument set, then "
